@@ -18,7 +18,7 @@ from common import *   # noqa
 
 ID = 'C14'
 NAMESPACE = 'VL.C14'
-LEAN_MODULES = ['VotelibProofs.Props.C14']
+LEAN_MODULES = ['VotelibProofs.Props.C14', 'VotelibProofs.Props.C14OpenList']
 GEN_MODULES = ['Divisor', 'Quota']
 
 REQUIRED = [
@@ -51,9 +51,15 @@ REQUIRED = [
     'fix_cond_none_seats_preselector_now', 'fix_cond_none_seats_preselector_before_witness',
     # what the laws say
     'multistage_chain', 'multistage_nil', 'unused_chain', 'unused_chain_last', 'tieBreaking_noTie_sel', 'tieBreaking_noTie_dist', 'tieChoice_among',
-    'tieBreaking_ideal', 'replaceSel_eq_fill', 'fillTie_other_places', 'fillTie_length', 'collectSel_count',
+    'tieBreaking_ideal', 'replaceSel_eq_fill', 'fillTie_other_places', 'fillTie_length', 'collectSel_count', 'collectSel_keys', 'mem_distinctTies', 'distinctTies_nodup', 'collectSel_order',
+    'replaceSel_eq_fill_tiesLast', 'fillTie_append', 'fillTie_some', 'tiePlaces_fillTie', 'tieLoop_eq_fill',
+    'tieBreaking_ideal_tiesLast', 'tieBreaking_tie_first_witness',
     'byConstituency_total', 'byConstituency_pointwise', 'district_evaluated', 'district_without_seats',
-    'partyList_seats_exactly', 'closedList_ok',
+    'partyList_seats_exactly', 'closedList_ok', 'partyList_open_seats_exactly', 'openList_ok',
+    'listEvalExact_takeFromTop', 'listEvalExactOn_of_exact', 'openList_ok_on', 'thresholdOpenList_exactOn',
+    'partyList_open_seats_exactly_on', 'toCandList_eq',
+    'D.get?_set', 'setNested_look', 'enterAllocation_look', 'look_fillEmpty', 'has_fillEmpty', 'byParty_fold_look',
+    'byParty_pointwise',
     'chain_cons', 'chain_nil',
 ]
 
@@ -73,6 +79,8 @@ REQUIRED_COUNTERS = (['w:' + w for w in WRAPPERS] + ['leaf:' + l for l in LEAVES
                         'unused_votes_prev_gains_later_stage_awards', 'unused_votes_depth2_later_stage_awards',
                         # generator audit (GENERATOR_CHECKLIST.md): candidate objects, clashes, numbers, seat values
                         'names:int0', 'names:empty0', 'names:person', 'name_clash', 'exact_arithmetic_in_wrapper',
+                        'seat_table_shared:repeated_call', 'seat_table_shared:later_stage',
+                        'seat_table_shared:repeated_call_and_later_stage',
                         'num:fraction_votes', 'num:fraction_votes_big_denominator', 'num:votes_1e18_or_more',
                         'num:near_tie_at_magnitude', 'num:zero_vote_parties_2plus',
                         'prev_gains_for_party_absent_from_votes',
@@ -1887,6 +1895,30 @@ def gen_directed(rng):
                       {'k': 'remapp', 'e': {'k': 'byparty', 'overall': ha, 'alloc': None}}]},
                    'app': {'ev': leaf('ha', divisor='sainte_lague')}},
                   {'votes': nested, 'n': str(rng.randint(4, 9))}, ['directed', 'seatspec:app_dist'])
+    # ONE table of seats per constituency shared by several readers (seeded change C14i: the table was updated in
+    # place by UnusedVotesDistributor._subtract_gained_seats): a fixed-dict apportioner of a PreApportioned object that
+    # is called twice, a later stage of a MultistageDistributor reading the same table, and both at once
+    qd_h = leaf('qd', quota='hare', accept_equal=True, on_overaward='error')
+    big = {'dict': [[CON0, {'dict': [[a, '4700'], [b, '3400'], [c, '1900']]}],
+                    [CON0 + 1, {'dict': [[a, '1200'], [b, '5200'], [c, '2600']]}]]}
+    table = {'dict': [[CON0, str(rng.randint(6, 9))], [CON0 + 1, str(rng.randint(5, 8))]]}
+    un2 = {'k': 'unused', 'depth': 2, 'quotas': rng.choice([None, ['hare']]),
+           'rounds': [{'k': 'bycon', 'e': qd_h, 'app': None} if False else {'k': 'bycon', 'e': qd_h, 'app': None},
+                      {'k': 'bycon', 'e': ha, 'app': None}]}
+    if un2['quotas'] is None:
+        un2['quotas'] = ['hare']       # the rounds are wrapped (ByConstituency): no quota_function attribute to default to
+    later = {'k': 'bycon', 'e': leaf('ha', divisor='sainte_lague'), 'app': None}
+    case = mk_case({'k': 'preapp', 'e': un2, 'app': table}, {'votes': big},
+                   ['directed', 'seat_table_shared:repeated_call', 'seatspec:app_dict', 'seatspec:none'])
+    case['warm'] = {'votes': big}
+    yield case
+    yield mk_case({'k': 'multi', 'depth': 2, 'rounds': [un2, later]}, {'votes': big, 'n': table},
+                  ['directed', 'seat_table_shared:later_stage', 'seatspec:dict'])
+    case = mk_case({'k': 'preapp', 'e': {'k': 'multi', 'depth': 2, 'rounds': [un2, later]}, 'app': table}, {'votes': big},
+                   ['directed', 'seat_table_shared:repeated_call', 'seat_table_shared:later_stage',
+                    'seat_table_shared:repeated_call_and_later_stage', 'seatspec:app_dict', 'seatspec:none'])
+    case['warm'] = {'votes': _scaled(big, 3)}
+    yield case
     # exact arithmetic inside the wrappers: after the Hare quota 10/3 (k times) is taken off A, A and B hold exactly
     # the same votes and tie for the last seat of the next round; any rounding separates them
     kk = rng.choice([1, 3, 10 ** 18 + 7])
@@ -2073,13 +2105,11 @@ def _shrink_candidates(case):
 
 
 UNPROVED = [
-    'collectSel_order: the ties are put to the tiebreaker in order of first appearance and each exactly once (proved: '
-    'each with exactly its number of places, collectSel_count)',
-    'tieBreaking_ideal outside choicesClean: a tiebreaker that answers with the very tie it was asked to break (e.g. '
-    'Plurality tying again on all places) — code and fill-in-order reading agree on such runs but this is not proved',
-    'partyList_seats_exactly for open lists (the law partyList_law covers both branches; exactness of the count is '
-    'proved for closed lists only, the open-list evaluator is abstract)',
-    'byParty_ideal / unusedVotes_ideal: no separate more-demanding reading is stated for these two wrappers beyond their laws',
+    'thresholdOpenList_exactOn covers n <= |list| only (the premise of VL.C16.openlist_length_distinct, which it uses); '
+    'for a party that won more seats than its list has members the exact count min(n, |list|) of ThresholdOpenList is '
+    'not proved (closed lists: partyList_seats_exactly covers it)',
+    'tieBreaking on a tiebreaker that names the tie it was asked to break BEFORE other candidates: code and fill-in-order '
+    'reading differ in the order of the tied places (tieBreaking_tie_first_witness); no selector built on get_n_best answers so',
 ]
 ASSUMPTIONS = [
     'WellFormed t (decidable, static, typing only): a part is given only what its wrapper hands over unconditionally — '
